@@ -214,6 +214,67 @@ inline void judge(Ctx& C, const std::string& bytes, const std::string& what, boo
   if (!problems.empty()) C.failKey("in:msgpack:" + hex(bytes).substr(0, 600) + "|" + what, "msgpack", problems);
 }
 
+// the same well-formed object decoded into other destination states: a populated document, a member, an element, and a
+// member / element of a document on which an earlier, unrelated failure left overflowed() set
+inline void judgeDestinations(Ctx& C, const std::string& bytes) {
+  MValue ref;
+  size_t consumed = 0;
+  if (refmp::decode(bytes, ref, &consumed, ARDUINOJSON_DEFAULT_NESTING_LIMIT) != refmp::Ok) return;
+  if (maxAnnounced(bytes) + 6 > 65535) return;
+  MValue want = configured(ref);
+  static const char* kDst[] = {"", "populated", "member", "element", "member-of-overflowed", "element-of-overflowed"};
+  for (int dst = 1; dst <= 5; dst++) {
+    CappedAllocator A;
+    std::string problems;
+    {
+      JsonDocument doc(&A);
+      bool member = dst == 2 || dst == 4, element = dst == 3 || dst == 5;
+      if (dst == 1) {
+        doc["old"] = std::string("old-value-copied");
+        doc["arr"][0] = 1e100;
+      } else if (member) {
+        doc["keep"] = std::string("kept");
+        doc["x"] = std::string("old");
+        doc["after"] = 7;
+      } else {
+        doc.add(1);
+        doc.add(std::string("old"));
+        doc.add(3);
+      }
+      if (dst >= 4) {
+        A.failAll = true;
+        if (member) doc["x"].set(std::string("a copied string whose allocation is refused"));
+        else doc[1].set(std::string("a copied string whose allocation is refused"));
+        A.failAll = false;
+        if (!doc.overflowed()) problems += "harness: destination document not in the overflowed state; ";
+      }
+      DeserializationError err;
+      JsonVariantConst target;
+      if (member) {
+        err = deserializeMsgPack(doc["x"], bytes.data(), bytes.size());
+        target = doc["x"];
+        if (doc["keep"] != "kept" || doc["after"] != 7 || doc.size() != 3) problems += "siblings of the member destination changed; ";
+      } else if (element) {
+        JsonVariant v = doc[1];
+        err = deserializeMsgPack(v, bytes.data(), bytes.size());
+        target = doc[1];
+        if (doc[0] != 1 || doc[2] != 3 || doc.size() != 3) problems += "siblings of the element destination changed; ";
+      } else {
+        err = deserializeMsgPack(doc, bytes.data(), bytes.size());
+        target = doc.as<JsonVariantConst>();
+      }
+      if (err != DeserializationError::Ok) problems += std::string("code ") + err.c_str() + " for a well-formed object; ";
+      else {
+        std::string o1 = obsReal(target), o2 = obsModel(&want);
+        if (o1 != o2) problems += "value differs from the one decoded into a fresh document: " + o1.substr(0, 100) + " vs " + o2.substr(0, 100) + "; ";
+      }
+      problems += A.takeErrors();
+    }
+    if (!A.live.empty()) problems += "blocks live after destruction; ";
+    if (!problems.empty()) C.failKey("in:msgpack:" + hex(bytes).substr(0, 600) + "|dst=" + kDst[dst], "msgpack-destination", problems);
+  }
+}
+
 inline void run(Ctx& C) {
   const bool T = C.thorough();
   int N = atoi(C.opt("nodes", T ? "3" : "3").c_str());
@@ -243,6 +304,7 @@ inline void run(Ctx& C) {
         return;
       }
       judge(C, bytes, "full[" + desc + "]", true);
+      if (desc == "min" || desc == "max") judgeDestinations(C, bytes);
       // proper prefixes
       size_t len = bytes.size();
       for (size_t p = 0; p < len; p++) {
@@ -281,7 +343,7 @@ inline void run(Ctx& C) {
   C.metrics["substitutions"] += double(nSubst);
   C.bound("all trees with <= " + std::to_string(N) + " nodes over " + std::to_string(G.leavesTop.size()) + " leaves (" +
           std::to_string(G.leavesDeep.size()) + " below depth " + std::to_string(G.deepFrom) + "), 3 keys with repetition; all encodings with <= " +
-          std::to_string(K) + " non-minimal nodes + the all-maximal one; proper prefixes (all for <= 40 bytes); all 255 substitutions at every position of short encodings; USE_DOUBLE=" +
+          std::to_string(K) + " non-minimal nodes + the all-maximal one; proper prefixes (all for <= 40 bytes); all 255 substitutions at every position of short encodings; minimal and maximal encodings also into 5 non-fresh destination states (populated, member, element, member / element of an overflowed document); USE_DOUBLE=" +
           std::to_string(ARDUINOJSON_USE_DOUBLE));
 }
 }  // namespace ix_msgpack
